@@ -37,7 +37,7 @@ ASSUMPTIONS = [
 
 def budget(tier):
     if tier == 'thorough':
-        return {'seeds': 60000, 'chunk': 100, 'wall_cap': 1500, 'extra': {'big': True}}
+        return {'seeds': 240000, 'chunk': 200, 'wall_cap': 1200, 'extra': {'big': True}}
     return {'seeds': 16000, 'chunk': 100, 'wall_cap': 240, 'extra': None}
 
 
@@ -154,7 +154,18 @@ def run(plan, stats):
         if real0.count != n:
             viols.append(Violation(PROP, 'count', 'count-lost:' + feat,
                                    {'statementCount': real0.count, 'reference': n, 'seam_starts': real0.starts}))
-        # also: no-limit key absent vs 0 must not differ for a terminating program (limit far away)
+        # the counter restarts with every execution: a second run that re-uses the SAME options object (under a
+        # limit that the two runs together would exceed) behaves like the first
+        if n >= 1 and plan.get('seed', 0) % 3 == 0:
+            lim2 = n + 1
+            first = run_real(plan, limit=lim2, sim_options=True, max_starts=lim2 + 200)
+            second = run_real(plan, limit=lim2, sim_options=True, max_starts=lim2 + 200, reuse_options=first.extra['options'])
+            stats.c['evaluations'] += 2
+            stats.probes['options_object_reused_for_a_second_run'] += 1
+            if first.summary() == real0.summary() and (second.summary() != first.summary() or second.count != first.count):
+                viols.append(Violation(PROP, 'complete', 'second-run-with-reused-options-differs:' + feat,
+                                       {'limit': lim2, 'reference_total': n, 'first_count': first.count,
+                                        'second_count': second.count, 'second_error': second.error}))
     marks = getattr(ref0, 'extra', {}).get('marks', [])
     limits = limits_for(plan, n, marks)
     base_events = norm_events(real0.events) if real0 is not None else None
